@@ -142,6 +142,59 @@ func (e *Env) hangContext() string {
 	return " trigger=" + strings.Join(tags, "+") + model
 }
 
+// TwoUsersetsOfOneType reports whether some relation reachable from typ#rel lists two userset
+// restrictions of the same type through different relations ([group#admin, group#member]).
+func TwoUsersetsOfOneType(m *rm.Model, typ, rel string) bool {
+	type node struct{ t, r string }
+	seen := map[node]bool{}
+	stack := []node{{typ, rel}}
+	for len(stack) > 0 {
+		n := stack[len(stack)-1]
+		stack = stack[:len(stack)-1]
+		if seen[n] {
+			continue
+		}
+		seen[n] = true
+		r := m.Rel(n.t, n.r)
+		if r == nil {
+			continue
+		}
+		byType := map[string]map[string]bool{}
+		for _, res := range r.Restrictions {
+			if res.Relation != "" {
+				if byType[res.Type] == nil {
+					byType[res.Type] = map[string]bool{}
+				}
+				byType[res.Type][res.Relation] = true
+				stack = append(stack, node{res.Type, res.Relation})
+			}
+		}
+		for _, rels := range byType {
+			if len(rels) > 1 {
+				return true
+			}
+		}
+		var walk func(rw *rm.Rewrite)
+		walk = func(rw *rm.Rewrite) {
+			switch rw.Kind {
+			case rm.Computed:
+				stack = append(stack, node{n.t, rw.Relation})
+			case rm.TTU:
+				if ts := m.Rel(n.t, rw.Tupleset); ts != nil {
+					for _, res := range ts.Restrictions {
+						stack = append(stack, node{res.Type, rw.Relation})
+					}
+				}
+			}
+			for _, c := range rw.Children {
+				walk(c)
+			}
+		}
+		walk(r.Rewrite)
+	}
+	return false
+}
+
 // RepeatsLeaf reports whether some relation uses the same leaf operand (computed userset,
 // tuple-to-userset or direct assignment) twice anywhere in its rewrite.
 func RepeatsLeaf(m *rm.Model) bool {
